@@ -659,26 +659,28 @@ def profile_cli16(rnd, n, thorough, out):
                     f"cli16 set={si} serial, two files with one test-case name kinds={[kinds2[f] for f in files2]}",
                     ("C16|" + oracle) if oracle else None)
             shutil.rmtree(cwd2, ignore_errors=True)
-        # a test file that is not valid UTF-8 among passing ones (the reader panics on it: outside the
-        # model, judged on the implementation alone): whatever else happens, the exit status is not 0
+        # a test file that cannot be read (not valid UTF-8) among passing ones: it is reported as failed
+        # like a parse error, the others run and are reported, the JUnit report is written (D27: the
+        # pinned tree panicked here, exit status 101, no report)
         if si % 4 == 1:
             cwd3 = fresh_dir(f"c16u_{si}")
             os.makedirs(os.path.join(cwd3, "t"), exist_ok=True)
             names = ["t/a.slt", "t/b.slt", "t/c.slt"]
             bad = rnd.choice(names)
+            kinds3 = {f: ("parse" if f == bad else "pass") for f in names}
             for f in names:
                 if f == bad:
                     open(os.path.join(cwd3, f), "wb").write(b"statement ok\nselect '\xff\xfe' -- F" + f.encode() + b"\n")
                 else:
                     open(os.path.join(cwd3, f), "w").write(file_text(f, "pass", rnd, extra=False))
             for jobs in (0, rnd.randint(1, 4)):
-                r = run_cli(cwd3, (["-j", str(jobs)] if jobs else []) + ["--junit", "out", "t/*.slt"], timeout=25)
-                oracle = None
-                if r.timeout:
-                    oracle = "C16|the CLI did not exit within 25 s"
-                elif r.exit == 0:
-                    oracle = f"C16|exit status 0 although {bad} could not even be read (not UTF-8)"
-                out.add("note", "ok", f"cli16 set={si} jobs={jobs} file that is not valid UTF-8: {bad} (exit {r.exit})", oracle)
+                r, tags, ju, evs, cause, oracle = cli_run_set(cwd3, names, kinds3, jobs, False, False, rnd, latency=0)
+                if oracle is None and r.exit == 0:
+                    oracle = f"exit status 0 although {bad} could not even be read (not UTF-8)"
+                tag = f"cli16 set={si} jobs={jobs} file that is not valid UTF-8: {bad} (exit {r.exit})"
+                out.add(climon_case(jobs, False, r.exit, cause, names, kinds3, tags, ju, evs), "accept", tag,
+                        ("C16|" + oracle) if oracle else None)
+                add_trace(out, jobs, False, False, names, kinds3, tags, r, tag)
             shutil.rmtree(cwd3, ignore_errors=True)
         # a cancelled file makes the exit status non-zero: Ctrl-C while the LAST file is running
         if all(kinds[f] == "pass" for f in files):
